@@ -101,7 +101,7 @@ def obligations(tier):
     prog = model.load()
     obs = []
     for cls in drivers.COND_CLASSES:
-        for ctx in drivers.BATCH_CTX:
+        for ctx in drivers.BATCH_CTX + drivers.ROUTE_CTX:
             for regime in (["Dx<=Dy"] if drivers.is_identity(cls) else drivers.REGIMES):
                 obs.append(joint_ob(prog, cls, ctx, regime))
     return obs
